@@ -121,6 +121,12 @@ mut("cost_skips_last_operand", ["C16"], "calculateNodeCosts/",
     [("compiler.go", "\t\tfor _, child := range children {\n\t\t\tchildrenCost += child.cost\n\t\t}", "\t\tfor _, child := range children[:len(children)/2*2] {\n\t\t\tchildrenCost += child.cost\n\t\t}")], "odd operand counts drop the last operand from the cost")
 mut("reordering_rewrites_node_flag", ["C16"], "sweep/writeset:reordering",
     [("compiler.go", "\tcalculateNodeCosts(cc, root)\n\n\tif !isBoolOpNode(root.node) {", "\tcalculateNodeCosts(cc, root)\n\tif root.cost < 0 {\n\t\troot.children = root.children[:1]\n\t}\n\n\tif !isBoolOpNode(root.node) {")], "negative total cost truncates the operand list")
+# ---- C01 (operator calls receive exactly the operand values)
+mut("eval_params_copied_from_wrong_slot", ["C01"], "Expr.Eval/callsite/params-are-operands",
+    [("engine.go", "\t\t\t\tparams = make([]Value, cCnt)\n\t\t\t\tcopy(params, os[osTop+1:])\n\t\t\t}\n\n\t\t\tres, err = curt.operator(ctx, params)",
+      "\t\t\t\tparams = make([]Value, cCnt)\n\t\t\t\tcopy(params, os[osTop+2:])\n\t\t\t}\n\n\t\t\tres, err = curt.operator(ctx, params)")], "n-ary operators get their operands shifted by one stack slot")
+mut("tryeval_params_one_too_long", ["C04"], "Expr.TryEval/callsite/executeOperatorProxy:params-are-operands",
+    [("engine.go", "\t\t\t\tparam = make([]Value, cCnt)\n\t\t\t\tcopy(param, os[osTop+1:])", "\t\t\t\tparam = make([]Value, cCnt+1)\n\t\t\t\tcopy(param, os[osTop+1:])")], "TryEval passes one stale extra operand to n-ary operators")
 
 def main():
     out = os.path.join(os.path.dirname(os.path.abspath(__file__)), "mutants")
